@@ -9,6 +9,7 @@ def run(ctx):
     M.ord2_offset_applied_once(ctx)
     M.ord13_sort_structure(ctx)
     M.ord13_top_n_limit_zero(ctx)
+    M.ord16_partials_combined_in_partition_order(ctx)
     T.tbl13_comparators(ctx)
     return ctx.finish(
         'MIR dataflow: interprocedural taint of values read from LimitClause fields (the limit may '
